@@ -20,7 +20,7 @@ type C09 struct{}
 
 func (C09) ID() string { return "C09" }
 func (C09) Rule() string {
-	return "rapid-generated trees (<=10 nodes; 1 in 4 whole-tree scenarios with a second scan root) x {fatal-on-fs-errors, size limit, gitignore, whole tree / requested paths, symlink reading} x 1-3 extractors; per tree the fault-free history is recorded and EVERY single fault (site = k-th occurrence of stat/open/readdir/fstat/read/readdirall on a path; kinds perm/notexist/eio, eio-partial for reads, and persistent variants in which every occurrence from the k-th on fails) is injected, plus every ordered pair (second site taken from the history of the run with the first fault; kinds perm,eio) when the fault-free history has <= 40 file-system operations (quick) / <= 90 (thorough); evaluation = one scan under one fault plan; non-trivial scenario = at least one fault fired AND at least one extraction lies outside its blast radius; distinct = distinct scenario JSON"
+	return "rapid-generated trees (<=10 nodes; 1 in 4 whole-tree scenarios with a second scan root) x {fatal-on-fs-errors, size limit, inode limit equal to the fault-free visit count (1 in 3 scenarios without gitignore handling), gitignore, whole tree / requested paths, symlink reading} x 1-3 extractors; per tree the fault-free history is recorded and EVERY single fault (site = k-th occurrence of stat/open/readdir/fstat/read/readdirall on a path; kinds perm/notexist/eio, eio-partial for reads, and persistent variants in which every occurrence from the k-th on fails) is injected, plus every ordered pair (second site taken from the history of the run with the first fault; kinds perm,eio) when the fault-free history has <= 40 file-system operations (quick) / <= 90 (thorough); evaluation = one scan under one fault plan; non-trivial scenario = at least one fault fired AND at least one extraction lies outside its blast radius; distinct = distinct scenario JSON"
 }
 
 func (C09) Gen(rt *rapid.T, tier string) any {
@@ -51,6 +51,7 @@ func (C09) Gen(rt *rapid.T, tier string) any {
 			cfg.PathsToExtract = uniq(rapid.SliceOfN(rapid.SampledFrom(cands), 1, 2).Draw(rt, "paths"))
 		}
 	}
+	cfg.ExactInodeLimit = !cfg.UseGitignore && rapid.IntRange(0, 2).Draw(rt, "exactinodelimit") == 2
 	cfg.Disk = DiskPlan{Chunk: rapid.SampledFrom([]int{0, 5, 16}).Draw(rt, "chunk"), NoReadDirFile: rapid.IntRange(0, 5).Draw(rt, "noreaddirfile") == 5}
 	if len(cfg.PathsToExtract) == 0 && rapid.IntRange(0, 3).Draw(rt, "tworoots") == 3 {
 		// a fault in one scan root must not reach into the other (they share the walk context)
@@ -475,6 +476,10 @@ func (C09) Run(t *testing.T, sc any) *sim.Outcome {
 		return out
 	}
 	cap := 8*len(h0.Events) + 64
+	if cfg.ExactInodeLimit && !cfg.UseGitignore {
+		// (with gitignore handling an unreadable .gitignore legitimately makes the walk visit MORE)
+		base.MaxInodes = countOp(h0.Events, "inode")
+	}
 
 	firedAny, outsideAny := false, false
 	runPlan := func(plan []Fault) *Obs {
